@@ -90,10 +90,13 @@ type c08Probe struct {
 type c08Scope struct {
 	label   string
 	retired atomic.Bool
+	drop    bool // its sinks do not keep what they are handed
 }
 
-func (sc *c08Scope) sink(act int, fail bool) *c08Sink { return &c08Sink{act: act, fail: fail, sc: sc} }
-func (sc *c08Scope) retire()                          { sc.retired.Store(true) }
+func (sc *c08Scope) sink(act int, fail bool) *c08Sink {
+	return &c08Sink{act: act, fail: fail, sc: sc, drop: sc != nil && sc.drop}
+}
+func (sc *c08Scope) retire() { sc.retired.Store(true) }
 
 var c08Stale struct {
 	mu   sync.Mutex
@@ -154,6 +157,7 @@ const c08MaxPayload = 1 << 25
 type c08Sink struct {
 	bytes.Buffer
 	fail bool
+	drop bool      // the payload is looked at (retired scope, size) but not kept: sinks of oversize history operations
 	act  int       // what Write does besides copying the payload (c08Nested); 0 = nothing
 	sc   *c08Scope // the history operation / probe run whose logger this sink was built for
 }
@@ -170,6 +174,9 @@ func (s *c08Sink) Write(p []byte) (int, error) {
 	}
 	switch s.act {
 	case 0:
+		if s.drop {
+			return len(p), nil
+		}
 		return s.Buffer.Write(p)
 	case c08ActBlocked, c08ActYield:
 		// a sink whose Write takes time (lock, channel, syscall): a few bytes of the payload are
@@ -951,11 +958,13 @@ func c08Probes(seed uint64) []*c08Probe {
 		lg.Warn("plain after", zap.Int("n", 2))
 		return c08Join(s1, s2, es)
 	})
+	// entries of 70 KiB .. 1 MiB followed by small ones (c08_huge.go)
+	c08HugeProbes(add)
 	return ps
 }
 
 // ---------- history operations ----------
-const c08NKinds = 16
+const c08NKinds = 20 // 16..19: oversize operations (c08_huge.go)
 
 // executes one history operation; returns its abstraction and a class letter.  Its sinks and hooks
 // are retired when it is over; whatever reached a retired sink / hook meanwhile is unexpected.
@@ -1174,6 +1183,12 @@ func c08HistOp1(sc *c08Scope, r *RNG, kind int) (desc SX, class string, unexpect
 			}
 		})
 		return c08Abs(6, a, b, c, d, e, fl&3), "y", unexpected
+	case c08KHugeField, c08KHugeCtx, c08KHugeShape, c08KHugeDirect: // entries of 70 KiB .. 1 MiB (c08_huge.go)
+		hd, hc, hu := c08HugeOp(sc, r, kind, quiet)
+		if unexpected == "" {
+			unexpected = hu
+		}
+		return hd, hc, unexpected
 	default: // a burst of concurrent logging on other loggers
 		var wg sync.WaitGroup
 		for g := 0; g < 4; g++ {
@@ -1204,6 +1219,7 @@ func c08Adv(r *RNG, n int) SX {
 }
 
 func c08(c *Ctx) {
+	c08Thorough = c.Thorough
 	probes := c08Probes(c.Seed)
 	// child mode: print the fresh bytes of one probe, as the first logging activity of the process
 	if k := os.Getenv("C08_CHILD"); k != "" {
@@ -1345,7 +1361,14 @@ func c08(c *Ctx) {
 				if k == 5 && rep > 0 {
 					break
 				}
+				if k >= c08KHugeField {
+					c08SizePlan = c08HugeSizes[rep] // 70 KiB, 200 KiB, 1 MiB
+					if rep == 2 && (p.id+k+int(c.Seed))%2 == 1 && !c.Thorough {
+						c08SizePlan = 400 << 10 // quick tier: the 1 MiB entry before every other probe
+					}
+				}
 				h, cl, u := c08HistOp(r, k)
+				c08SizePlan = 0
 				hist = append(hist, h)
 				cls += cl
 				if u != "" {
@@ -1353,6 +1376,38 @@ func c08(c *Ctx) {
 				}
 			}
 			observe(p, hist, cls, "pair", 0)
+		}
+	}
+	// oversize operations with a collection between them and the probe: after ONE runtime.GC() the
+	// objects sit in sync.Pool's victim cache and are still handed out, after two the pools are empty
+	for k := c08KHugeField; k < c08NKinds; k++ {
+		for _, p := range probes {
+			if (p.id+k+int(c.Seed))%3 != 0 && !c.Thorough { // quick tier: a third of the probes per kind, rotating with the seed
+				continue
+			}
+			for gcs := 1; gcs <= 2; gcs++ {
+				runtime.GC()
+				runtime.GC()
+				var hist []SX
+				cls := ""
+				for rep := 0; rep < 2; rep++ {
+					c08SizePlan = c08HugeSizes[(p.id+k+rep+gcs)%len(c08HugeSizes)]
+					h, cl, u := c08HistOp(r, k)
+					c08SizePlan = 0
+					hist = append(hist, h)
+					cls += cl
+					if u != "" {
+						viol(u, L(I(k), L(hist...)))
+					}
+				}
+				runtime.GC()
+				if gcs == 2 {
+					runtime.GC()
+					hist = append(hist, c08Abs(5, 0, 0, 0, 0, 0, 0))
+					cls += "g"
+				}
+				observe(p, hist, cls, "pair-gc"+strconv.Itoa(gcs), 0)
+			}
 		}
 	}
 	// probe after probe (each probe is also a history for every other one)
@@ -1441,6 +1496,9 @@ func c08(c *Ctx) {
 			k := r.Intn(c08NKinds)
 			if r.Chance(40) {
 				k = r.Intn(5) // the cheap, pool-heavy kinds dominate
+			}
+			if k >= c08KHugeField && !c.Thorough && r.Chance(55) {
+				k = r.Intn(5) // quick tier: a handful of oversize operations per history
 			}
 			x, cl, u := c08HistOp(r, k)
 			hist = append(hist, x)
